@@ -1,6 +1,6 @@
 (* C03 -- the script table of the Linux Process queries and the closed (vm_compute) guard results,
    lifted through the soundness theorems of Proofs.v; refutations about the code before the repairs. *)
-From PV Require Import Base.Prelude C03.Model C03.Spec C03.Guard C03.Proofs C03.Run.
+From PV Require Import Base.Prelude C03.Model C03.Spec C03.Guard C03.Proofs C03.Run C03.History.
 Local Open Scope string_scope.
 Local Open Scope list_scope.
 
@@ -177,3 +177,23 @@ Example half_removed_examples :
   fst (run (mk_world y0 0 (Some 0%nat) true [] [] true true) f_name st0) = RExc (XNSP Self) /\
   fst (run (mk_world y0 0 (Some 0%nat) true [] [] true true) f_exe st0) = RExc (XNSP Self).
 Proof. vm_compute. repeat split; reflexivity. Qed.
+
+(* ---- histories on the object whose pid is the CACHED LOWEST pid (psutil._LOWEST_PID), concrete worlds of the harness:
+        the early `return None` of parent() never bypasses the gone / reused guard *)
+Definition wlow (kind : nat) (v : option nat) (half reu : bool) : world :=
+  with_params (mk_world y0 kind v half [] [] true true) true reu.
+Example lowest_pid_histories :
+  (* vanish (whole directory / half-removed) ; is_running() ; parent() / parents() / children() *)
+  map fst (run_hist (wlow 0 (Some 0%nat) false false) [h_is_running; h_parent] st0) = [RVal; RExc (XNSP Self)] /\
+  map fst (run_hist (wlow 0 (Some 0%nat) true false) [h_is_running; h_parents] st0) = [RVal; RExc (XNSP Self)] /\
+  map fst (run_hist (wlow 0 (Some 0%nat) false false) [h_is_running; h_children] st0) = [RVal; RExc (XNSP Self)] /\
+  (* the pid was recycled (another start time): the very first guarded call already raises *)
+  map fst (run_hist (wlow 0 None false true) [h_parent] st0) = [RExc (XNSP Self)] /\
+  map fst (run_hist (wlow 0 None false true) [h_parents] st0) = [RExc (XNSP Self)] /\
+  map fst (run_hist (wlow 0 None false true) [h_children] st0) = [RExc (XNSP Self)] /\
+  map fst (run_hist (wlow 0 None false true) [h_is_running; h_parent] st0) = [RVal; RExc (XNSP Self)] /\
+  (* while alive and unrecycled the lowest pid has no parent *)
+  map fst (run_hist (wlow 0 None false false) [h_parent; h_parents] st0) = [RVal; RVal].
+Proof. vm_compute. repeat split; reflexivity. Qed.
+Lemma base_ok_with_params : forall opt w low reu, base_ok opt w -> base_ok opt (with_params w low reu).
+Proof. intros opt w low reu H gf l cur. exact (H gf l cur). Qed.
